@@ -124,7 +124,36 @@ def err_check(ctx: Ctx) -> RuleResult:
     from .sch import model
 
     r = RuleResult("ERR-CHECK")
-    m = model(ctx)
+    # wherever a futures wait primitive is called, the futures it reports done are inspected: decided on the calling function alone, so
+    # that it also covers a wait written directly into the scheduler loop (a form the scheduler model itself does not read)
+    n_direct = 0
+    for f in pkg_funcs(ctx):
+        for n in iter_own_nodes(f.node):
+            if not (isinstance(n, ast.Assign) and isinstance(n.targets[0], (ast.Tuple, ast.List)) and len(n.targets[0].elts) == 2):
+                continue
+            call = n.value.value if isinstance(n.value, ast.Await) else n.value
+            if not (isinstance(call, ast.Call) and (ctx.T.resolve_callee(f, call) or "") in ("ext:concurrent.futures.wait", "ext:asyncio.wait")):
+                continue
+            d = n.targets[0].elts[0]
+            if not isinstance(d, ast.Name):
+                continue
+            n_direct += 1
+            iterated = [lp for lp in iter_own_nodes(f.node) if isinstance(lp, (ast.For, ast.AsyncFor)) and isinstance(lp.iter, ast.Name)
+                        and lp.iter.id == d.id]
+            inspected = any(isinstance(x, ast.Call) and isinstance(x.func, ast.Attribute) and x.func.attr in ("result", "exception")
+                            for lp in iterated for x in own_walk(lp))
+            r.ob(inspected, {"in": f.short, "wait": norm_src(call)[:80], "the futures reported done are inspected": inspected})
+            if not iterated:
+                r.violate(f"{f.short}: the futures reported done by {norm_src(call.func)} are never inspected", f.loc(n),
+                          "a failure stored in one of them is never observed: the failed node is treated as finished, its dependents are "
+                          "started and the call returns normally", norm_src(n)[:120])
+    r.require(n_direct >= 2, f"only {n_direct} calls of a futures wait primitive found in the package (one per future kind expected)")
+    try:
+        m = model(ctx)
+    except Undecided:
+        if r.findings:
+            return r  # decided on the direct evidence above
+        raise
     r.require(bool(m.helpers), "no wait helper")
     for q, h in m.helpers.items():
         ok = h.checks_result and h.check_before_remove and h.done_loop is not None
